@@ -73,13 +73,32 @@ def _reuse_case(c):
     fails = []
     g = _grid(name, a, b, True)
     flags = c.get("boundary_flags") or [True] * len(c["requests"])
-    for step, (lv, s, e) in enumerate(c["requests"]):
-        # the boundary flag may be switched on the SAME object between requests (public set_boundaries, as Integration does)
-        g.set_boundaries([flags[step]] * d)
-        g.boundary = flags[step]
+    if c.get("boundary_constructed") is False:
+        g = _grid(name, a, b, False)           # constructed without boundary points (flags never switched)
+    for step, req in enumerate(c["requests"]):
+        if req[0] == "refuse":
+            # a request the grid refuses (exception caught by the caller): the object must answer the next valid request like a fresh one
+            try:
+                if req[1] == "level_vector_too_long":
+                    g.setCurrentArea(np.array(a, dtype=float), np.array(b, dtype=float), [2] * d + [1])
+                elif req[1] == "integrate_level_vector_too_long":
+                    from sparseSpACE.Function import CustomFunction
+                    g.integrate(CustomFunction(lambda x: 1.0), [1] + [2] * d, np.array(a, dtype=float), np.array(b, dtype=float))
+                elif req[1] == "count_with_boundary":
+                    g.levelToNumPointsWithBoundary([2] * d)     # raises on an object that has not been given an area yet
+                elif req[1] == "area_of_wrong_dimension":
+                    g.setCurrentArea(np.array(list(a) + [0.0], dtype=float), np.array(list(b) + [1.0], dtype=float), [1] * d)
+            except Exception:
+                pass
+            continue
+        lv, s, e = req
+        if c.get("boundary_constructed") is None:
+            # the boundary flag may be switched on the SAME object between requests (public set_boundaries, as Integration does)
+            g.set_boundaries([flags[step]] * d)
+            g.boundary = flags[step]
         g.setCurrentArea(np.array(s, dtype=float), np.array(e, dtype=float), list(lv))
         p1, w1 = g.get_points_and_weights()
-        fresh = _grid(name, a, b, flags[step])
+        fresh = _grid(name, a, b, flags[step] if c.get("boundary_constructed") is None else False)
         fresh.setCurrentArea(np.array(s, dtype=float), np.array(e, dtype=float), list(lv))
         p2, w2 = fresh.get_points_and_weights()
         p1 = np.array([[float(x) for x in p] for p in p1]).reshape(-1, d)
@@ -318,6 +337,20 @@ def cases(tier):
             for seq in itertools.product(menu2, repeat=2):
                 out.append({"config": {"kind": "reuse", "family": name, "d": 2, "a": [0.0, 0.0], "b": [1.0, 1.0], "requests": [list(x) for x in seq],
                                        "boundary_flags": [True, False]}})
+    # refused requests between valid ones (exception caught by the caller), on objects constructed with and without boundary points
+    for name in ("trapezoidal", "simpson", "clenshaw_curtis", "gauss_legendre"):
+        for bc in (None, False):
+            if bc is False and name == "gauss_legendre":
+                continue
+            for kind in ("level_vector_too_long", "integrate_level_vector_too_long", "count_with_boundary", "area_of_wrong_dimension"):
+                m2 = [r for r in menu2 if min(r[0]) >= 1][:3]
+                for first in [None] + m2:
+                    for second in m2:
+                        reqs = ([list(first)] if first else []) + [["refuse", kind], list(second)]
+                        cfg = {"kind": "reuse", "family": name, "d": 2, "a": [0.0, 0.0], "b": [1.0, 1.0], "requests": reqs}
+                        if bc is False:
+                            cfg["boundary_constructed"] = False
+                        out.append({"config": cfg})
     # grids whose dimensions differ: MixedGrid of different 1D families, and per-dimension boundary flags switched through set_boundaries;
     # every ordered pair of requests on one object, on an anisotropic shifted box
     am, bm = [-1.0, 2.0], [3.0, 4.0]
